@@ -35,7 +35,7 @@ Definition C06_corr (c : C06_case) : bool :=
   match c with
   | C06_F main _ _ _ _ _ _ => Core_corr main
   | C06_S g evs snaps exc _ =>
-      negb exc && all3 mstate_matches evs (mrun_trace g (mkms state0 []) evs) snaps && cfg_consistentb g
+      negb exc && all3 mstate_matches evs (mrun_trace g (mkms state0 []) evs) snaps && cfg_consistentb g && hier_consistentb g
   end.
 
 (* savepoints: the snapshot after ROLLBACK TO equals the snapshot at SAVEPOINT (innermost first) *)
